@@ -54,6 +54,21 @@ class Scenario:
 REGISTRY: List[Scenario] = []
 
 
+def worst_per_name(obs: Sequence["Ob"]) -> List["Ob"]:
+    """obligations recorded once per explored path / payload variant carry the same name: keep ONE per name, the worst outcome
+    (refuted before undecided before proved) -- a loop invariant that fails on one path fails"""
+    rank = {REFUTED: 0, UNDECIDED: 1}
+    best: Dict[str, Ob] = {}
+    order: List[str] = []
+    for o in obs:
+        if o.name not in best:
+            best[o.name] = o
+            order.append(o.name)
+        elif rank.get(o.status, 2) < rank.get(best[o.name].status, 2):
+            best[o.name] = o
+    return [best[n] for n in order]
+
+
 def scenario(ident: str, func: str, props: Sequence[str], inlined: Sequence[str] = (), doc: str = ""):
     def deco(f):
         REGISTRY.append(Scenario(ident, func, list(props), f, list(inlined), doc))
